@@ -60,6 +60,79 @@ def preEl? (j : Json) : Option PreEl :=
     | _, _ => none
   | _ => none
 
+/-- an element of the inner sequence of a `RunIf` (run once per selected value, so a `Count` in it keeps
+its counter from one run to the next) -/
+inductive IEl where
+  | map (f : Fn)
+  | filter (p : Pred)
+  | slice (k : Lena.C17.SliceKind)
+  | count (name : String)
+  | runif (p : Pred) (inner : List IEl)
+
+mutual
+/-- the number of `Count` elements, depth first -/
+partial def IEl.counts : IEl → Nat
+  | .count _ => 1
+  | .runif _ inner => iCounts inner
+  | _ => 0
+partial def iCounts (els : List IEl) : Nat := (els.map IEl.counts).foldl (· + ·) 0
+end
+
+mutual
+/-- `seq.run(vals)` drained, with the counters of its `Count` elements (depth first) before and after -/
+partial def iRun : List IEl → List Int → List V → List V × List Int
+  | [], st, vals => (vals, st)
+  | el :: rest, st, vals =>
+    let n := el.counts
+    let r := iRunEl el (st.take n) vals
+    let q := iRun rest (st.drop n) r.1
+    (q.1, r.2 ++ q.2)
+partial def iRunEl : IEl → List Int → List V → List V × List Int
+  | .map f, st, vals => (vals.map f.app, st)
+  | .filter p, st, vals => (vals.filter p.eval, st)
+  | .slice k, st, vals =>
+    (match Lena.C17.sliceRun k vals with
+     | some (.ok ys) => ys
+     | _ => [], st)
+  | .count name, st, vals =>
+    -- `Count.run`: `self.count += count` (nothing happens on an empty flow)
+    let c := st.headD 0
+    (countDen (markCount name c) vals, [c + vals.length])
+  | .runif p inner, st, vals =>
+    vals.foldl (fun acc v =>
+      if p.eval v then
+        let r := iRun inner acc.2 [v]
+        (acc.1 ++ r.1, r.2)
+      else (acc.1 ++ [v], acc.2)) ([], st)
+end
+
+mutual
+partial def iEl? (j : Json) : Option IEl :=
+  match str? (getD j "t") with
+  | some "map" => (fn? (getD j "f")).map IEl.map
+  | some "filter" => (pred? (getD j "p")).map IEl.filter
+  | some "slice" => (sliceKind? j).map IEl.slice
+  | some "count" => (str? (getD j "name")).map IEl.count
+  | some "runif" =>
+    match pred? (getD j "p"), iEls? (getD j "inner") with
+    | some p, some inner => some (.runif p inner)
+    | _, _ => none
+  | _ => none
+partial def iEls? (j : Json) : Option (List IEl) := (arr? j).bind (fun a => a.toList.mapM iEl?)
+end
+
+mutual
+/-- the initial counters (`count0`) of the `Count` elements of an inner sequence, depth first -/
+partial def iInit (j : Json) : List Int :=
+  match arr? j with
+  | none => []
+  | some a => a.toList.flatMap (fun e =>
+      match str? (getD e "t") with
+      | some "count" => [(int? (getD e "c0")).getD 0]
+      | some "runif" => iInit (getD e "inner")
+      | _ => [])
+end
+
 mutual
 partial def stage? (j : Json) : Option (Stage V) :=
   match str? (getD j "t") with
@@ -75,8 +148,9 @@ partial def stage? (j : Json) : Option (Stage V) :=
     | some n, some c => some (.count (markCount n c))
     | _, _ => none
   | some "runif" =>
-    match pred? (getD j "p"), stages? (getD j "inner") with
-    | some p, some inner => some (.runIf p.eval (fun v => seqDen inner [v]))
+    match pred? (getD j "p"), iEls? (getD j "inner") with
+    | some p, some inner =>
+      some (.runIf (List Int) (iInit (getD j "inner")) p.eval (fun st v => iRun inner st [v]))
     | _, _ => none
   | some "split" =>
     let bs : Option (Option Nat) :=
